@@ -41,6 +41,7 @@ def describe_exc(e):
 def take(iterable_fn, limit):
     """Iterate at most `limit` elements. Returns (values, exception or None, exhausted)."""
     out = []
+    it = None
     try:
         it = iter(iterable_fn())
         for x in it:
@@ -50,7 +51,20 @@ def take(iterable_fn, limit):
     except PASS_THROUGH:
         raise
     except BaseException as e:  # noqa: user functions may raise BaseException subclasses on purpose
+        # drop the traceback: it references the frames of every generator the exception went through, and with them
+        # the suspended upstream generators (executors, threads) - a reference cycle that only the cyclic garbage
+        # collector would free, at an arbitrary moment in an arbitrary thread
+        e.__traceback__ = None
         return out, e, True
+    finally:
+        # never leave a suspended prefetching generator to the garbage collector: its clean-up joins threads, and a
+        # collection that happens to run inside threading's own critical sections (observed on CPython 3.12: inside
+        # Thread._bootstrap_inner of a starting pool worker) dead-locks the interpreter
+        if it is not None and hasattr(it, 'close'):
+            try:
+                it.close()
+            except Exception:
+                pass
     return out, None, True
 
 
@@ -121,7 +135,12 @@ def check_iter(ds, m, tag, passes=2, cycle=True):
             raise
         except BaseException as e:
             raise Violation(f'cycle-construct|{tag}', describe_exc(e))
-        got, exc, _ = take(lambda: itertools.islice(cyc, k), k + 1)
+        cyc_it = iter(cyc)
+        try:
+            got, exc, _ = take(lambda: itertools.islice(cyc_it, k), k + 1)
+        finally:
+            if hasattr(cyc_it, 'close'):
+                cyc_it.close()
         if exc is not None:
             raise Violation(f'cycle-raised|{tag}', describe_exc(exc))
         if m.unordered:
